@@ -246,6 +246,19 @@ class ReqFunc(Contract):
         return True
 
 
+ML_CANDIDATES = ("deform", "ml_score_abc", "ml_score_xyz")
+
+
+class NoScoreInstances(Contract):
+    """AncillaryFeature.get_instances(feature) for an ml_score_??? feature: no registered
+    ancillary feature computes a score (checked against the registry on every run)"""
+    trusted = True
+    name = "AncillaryFeature.get_instances"
+
+    def __call__(self, interp, *args):
+        return []
+
+
 class HashIngredients(Contract):
     """AncillaryFeature.hash(self, rtdc_ds): which configuration values and features
     reach the hasher (the ingredient set of the cache key), derived from the code"""
@@ -263,11 +276,21 @@ class HashIngredients(Contract):
         self.name = "ingredients of the hash of " + inst_tag(inst)
         self.cfg_reads, self.feature_reads, self.paths = set(), set(), []
         super().__init__()
-        self.callees = {"AF.req_func": ReqFunc(inst.req_func)}
+        rf = getattr(inst.req_func, "__name__", "")
+        self.ml = rf == "has_ml_scores"
+        # a requirement function that returns something other than a bool contributes to the
+        # hash: the real function is taken (the default lambda and is_channel return a bool)
+        self.real_rf = rf not in ("<lambda>", "is_channel")
+        if self.real_rf:
+            self.inline = {rf, "get_ml_score_names"}
+            self.callees = {"AncillaryFeature.get_instances": NoScoreInstances()}
+        else:
+            self.callees = {"AF.req_func": ReqFunc(inst.req_func)}
 
     def inputs(self, ctx):
         N = ctx.int("N", lo=1)
-        ds = ctx.obj("AncDS", {"_N": N, "config": ctx.obj("Cfg", {}), "_feature_candidates": []}, name="ds")
+        ds = ctx.obj("AncDS", {"_N": N, "config": ctx.obj("Cfg", {}),
+                               "_feature_candidates": list(ML_CANDIDATES) if self.ml else []}, name="ds")
         # hash() is only called for an available instance: the requirements are present
         for sec, keys in self.inst.req_config:
             ctx.assume(_presence(ctx, "sec", sec).e)
@@ -275,43 +298,63 @@ class HashIngredients(Contract):
                 ctx.assume(_presence(ctx, "cfg", f"{sec}:{k}").e)
         for f in self.inst.req_features:
             ctx.assume(_presence(ctx, "feat", f).e)
-        af = ctx.obj("AF", {"req_features": list(self.inst.req_features),
-                            "req_config": [[sec, list(keys)] for sec, keys in self.inst.req_config],
-                            "feature_name": self.inst.feature_name}, name="af")
+        fields = {"req_features": list(self.inst.req_features),
+                  "req_config": [[sec, list(keys)] for sec, keys in self.inst.req_config],
+                  "feature_name": self.inst.feature_name}
+        if self.real_rf:
+            fields["req_func"] = self.inst.req_func
+        af = ctx.obj("AF", fields, name="af")
         return {"self": af, "rtdc_ds": ds}
 
     def post(self, ctx, st):
         from pyvc.engine import sig_of
-        self.paths.append(repr(sig_of(st.result)))
+        self.paths.append((repr(sig_of(st.result)), [str(c) for c in ctx.pc]))
         return []
 
     def raises(self, ctx, st, exc):
-        self.paths.append("raise " + exc.name)
+        self.paths.append(("raise " + exc.name, [str(c) for c in ctx.pc]))
         return None
 
 
+OPTIONAL_FEATS = ("bg_off", "temp", "fl1_max", "fl2_max", "fl3_max")
+
+
 def derive_hashed(inst):
-    """(hashed config keys, fully hashed sections, hashed features, problem)"""
+    """(hashed config keys, fully hashed sections, features whose presence and values are
+    hashed, features whose presence alone is hashed, problem)"""
     from pyvc import engine
     u = HashIngredients(inst)
     try:
         engine.Engine().verify(u)
     except Exception as ex:       # outside the subset: nothing is known to be hashed
-        return set(), set(), set(), f"{type(ex).__name__}: {ex}"
-    if not u.paths or any(p.startswith("raise") for p in u.paths):
-        return set(), set(), set(), f"hash() raises: {u.paths[:2]}"
-    keys, secs, feats = None, None, None
+        return set(), set(), set(), set(), f"{type(ex).__name__}: {ex}"
+    if not u.paths or any(p[0].startswith("raise") for p in u.paths):
+        return set(), set(), set(), set(), f"hash() raises: {[p[0] for p in u.paths[:2]]}"
+    keys, secs = None, None
     import re
-    for sig in u.paths:
+    for sig, _pc in u.paths:
         # hash() feeds "sec:key=value" per key: the key is an ingredient if that text,
         # with the value read from the configuration, reaches the hasher
         k = {(sec, key) for sec, kk in inst.req_config for key in kk if f"{sec}:{key}=" in sig}
         s_ = {sec for sec, kk in inst.req_config if f"cfgval_any_{sec}" in sig and f"cfgkey_any_{sec}" in sig}
-        f_ = {f for f in inst.req_features if f"feat_{f}" in sig}
         keys = k if keys is None else keys & k
         secs = s_ if secs is None else secs & s_
-        feats = f_ if feats is None else feats & f_
-    return keys, secs, feats, None
+    feats, pres = set(), set()
+    for f in dict.fromkeys(tuple(inst.req_features) + ML_CANDIDATES + OPTIONAL_FEATS):
+        absent = [sig for sig, pc in u.paths if any(c.replace(" ", "") == f"Not(has_feat_{f})" for c in pc)]
+        present = [sig for sig, pc in u.paths if not any(c.replace(" ", "") == f"Not(has_feat_{f})" for c in pc)]
+        explicit = [sig for sig, pc in u.paths if any(c.replace(" ", "") == f"has_feat_{f}" for c in pc)]
+        # presence is an ingredient: a state with the feature never hashes like a state without it
+        # (a required feature is always there; otherwise hash() must have looked at its presence)
+        presence = (f in inst.req_features) or (bool(absent) and bool(explicit) and not (set(absent) & set(explicit)))
+        value = bool(present) and all(re.search(rf"feat_{f}(?![A-Za-z0-9_])", sig) for sig in
+                                      (present if f in inst.req_features else explicit)) \
+            and (f in inst.req_features or bool(explicit))
+        if presence:
+            pres.add(f)
+            if value:
+                feats.add(f)
+    return keys, secs, feats, pres, None
 
 
 DEFAULT_KEYS = [("calculation", k) for k in ("emodulus lut", "emodulus medium", "emodulus temperature",
@@ -334,8 +377,9 @@ class AncReads(Contract):
         self.qualname = fn.__name__
         self.name = "reads of " + inst_tag(inst)
         self.params = ("mm",)
-        keys, secs, feats, problem = derive_hashed(inst)
+        keys, secs, feats, pres, problem = derive_hashed(inst)
         self.hashed_keys, self.hashed_secs, self.hashed_feats, self.hash_problem = keys, secs, feats, problem
+        self.presence_hashed = pres
         self.hashed_cfg = _Hashed(keys, secs)
         self.carve_reads = set(carve)
         self.feature_reads = set()
@@ -353,7 +397,9 @@ class AncReads(Contract):
 
     def inputs(self, ctx):
         N = ctx.int("N", lo=1, inp=True)
-        ds = ctx.obj("AncDS", {"_N": N, "config": ctx.obj("Cfg", {}), "_feature_candidates": []}, name="ds")
+        ml = self.inst.feature_name == "ml_class"
+        ds = ctx.obj("AncDS", {"_N": N, "config": ctx.obj("Cfg", {}),
+                               "_feature_candidates": list(ML_CANDIDATES) if ml else []}, name="ds")
         # this instance is the one the dataset selects
         ctx.assume(avail_formula(ctx, self.inst, self.insts))
         ctx.assume(z3.Bool("chip_region_is_channel") == _flag(ctx, "chip_region_is_channel").e)
@@ -439,13 +485,18 @@ class AncReads(Contract):
         from pyvc.engine import Obligation
         unhashed = sorted(k for k in self.cfg_reads if k not in self.hashed_cfg and k not in self.carve_reads)
         out = self.ingredient_obligations()
-        if not unhashed:
+        # features the method looks at (presence or values) that are no ingredient of the hash
+        unhashed_f = sorted(f for f in {f for f, _ in self.feature_reads}
+                            if f not in self.hashed_feats and ("feature", f) not in self.carve_reads)
+        if not unhashed and not unhashed_f:
             return out
         import re
 
         def sanitize(n):
             return "".join(c if (c.isalnum() or c in "_.!@$%^&*-+=<>?/~") else "_p" for c in n)
-        rename_names = {sanitize(n) for k in unhashed for n in self.key_symbols(*k)}
+        rename_names = {sanitize(n) for k in unhashed for n in self.key_symbols(*k)} \
+            | {sanitize(n) for f in unhashed_f
+               for n in ((f"feat_{f}",) if f in self.presence_hashed else (f"has_feat_{f}", f"feat_{f}"))}
 
         def primed(f):
             subs = []
@@ -465,7 +516,8 @@ class AncReads(Contract):
         def mentions(sig):
             t = repr(sig)
             return [n for n in rename_names if re.search(r"(?<![A-Za-z0-9_])" + re.escape(n) + r"(?![A-Za-z0-9_@])", t)]
-        what = ", ".join(f"[{s_}] '{k}'" for s_, k in unhashed)
+        what = ", ".join([f"[{s_}] '{k}'" for s_, k in unhashed] + [f"feature '{f}'" for f in unhashed_f])
+        unhashed = list(unhashed) + [("feature", f) for f in unhashed_f]
         # group the paths by outcome
         classes = {}
         for pc, o, d in self.paths:
@@ -478,13 +530,13 @@ class AncReads(Contract):
             others = [pc for o2 in keys if o2 != o for pc in classes[o2]]
             if others:
                 pc = [disj(classes[o]), primed(disj(others))]
-                out.append(Obligation(self.name, f"two states that differ only in keys outside the hash ({what}) "
+                out.append(Obligation(self.name, f"two states that differ only in keys / features outside the hash ({what}) "
                                       f"lead to the same outcome", self.line_of(), pc,
                                       z3.BoolVal(False), (), kind="frame",
                                       info={"outcome": repr(o)[:300], "unhashed": unhashed}))
             m = mentions(o)
             if m:
-                out.append(Obligation(self.name, f"the result does not depend on the value of a key outside the hash "
+                out.append(Obligation(self.name, f"the result does not depend on the value of a key / feature outside the hash "
                                       f"({what})", self.line_of(),
                                       [disj(classes[o])], z3.BoolVal(False), (), kind="frame",
                                       info={"outcome": repr(o)[:300], "unhashed": unhashed}))
@@ -520,6 +572,9 @@ def build_units():
             for ent in k.get("carve_out_raises", []):
                 if ent["feature"] == inst.feature_name:
                     raises |= set(ent["exceptions"])
+        if inst.feature_name == "ml_class":
+            # the documented sanity check: scores outside [0, 1] raise (a fresh dataset raises as well)
+            raises |= {"ValueError"}
         u = AncReads(inst, insts, carve)
         u.allowed_raises = tuple(raises)
         units.append(u)
@@ -532,7 +587,8 @@ TRUSTED_BASE = ["A-HASH (md5 of different ingredient streams differs)",
                 "functions of dclab.features.* called by the methods are pure functions of their arguments "
                 "(they are never handed the dataset: checked at every call)",
                 "innate features of a dataset do not change during its life (temporary features cannot shadow them)"]
-ASSUMPTIONS = ["third-party plugin features and user-defined temporary features carry no contract",
+ASSUMPTIONS = ["ml_score_??? values lie within [0, 1]: otherwise reading ml_class raises the documented ValueError",
+               "third-party plugin features and user-defined temporary features carry no contract",
                "the value domain of 'emodulus medium' is represented by three cases: 'other', a known medium, an unknown medium"]
 PARALLEL_UNITS = True
 
@@ -556,9 +612,13 @@ for _i in "123":
             DEFAULTS[("calculation", f"crosstalk fl{_i}{_j}")] = (0.1, 0.35)
 
 
-def _native_ds(state):
+def _native_ds(state, need=(), without=(), extra=None):
     """dict-based dataset with the features / configuration keys of `state`"""
     state = {k.replace(" ", "_"): v for k, v in state.items()}
+    for f in need:
+        state.setdefault(f"has_feat_{f}", True)
+    for f in without:
+        state[f"has_feat_{f}"] = False
     import numpy as np
     import dclab
     n = 6
@@ -567,8 +627,14 @@ def _native_ds(state):
              "fl1_max": rng.uniform(10, 100, n), "fl2_max": rng.uniform(10, 100, n), "fl3_max": rng.uniform(10, 100, n),
              "frame": np.arange(1, n + 1, dtype=float), "area_cvx": np.linspace(50, 90, n), "area_msd": np.linspace(48, 88, n),
              "size_x": np.linspace(5, 9, n), "size_y": np.linspace(4, 8, n), "circ": np.linspace(0.8, 0.99, n),
-             "pos_x": np.linspace(10, 20, n), "pos_y": np.linspace(5, 6, n)}
+             "pos_x": np.linspace(10, 20, n), "pos_y": np.linspace(5, 6, n),
+             "bg_off": np.linspace(1, 3, n), "ml_score_abc": np.linspace(0.1, 0.9, n), "ml_score_xyz": np.linspace(0.8, 0.3, n),
+             "image": rng.integers(80, 120, (n, 20, 30)).astype(np.uint8), "image_bg": np.full((n, 20, 30), 100, np.uint8)}
+    mask = np.zeros((n, 20, 30), bool)
+    mask[:, 5:15, 8:20] = True
+    feats["mask"] = mask
     present = {f: v for f, v in feats.items() if state.get(f"has_feat_{f}", f in ("area_um", "deform"))}
+    present.update(extra or {})
     if not present:
         present = {"deform": feats["deform"]}
     ds = dclab.new_dataset(present)
@@ -680,7 +746,15 @@ def replay(unit_name, inp, obligation=""):
     if unit_name.startswith("set_temporary_feature"):
         return _replay_temp_child()
     feat = unit_name.replace("reads of ", "").split("[")[0]
-    state = {k: v for k, v in inp.items()}
+    state = {k: v for k, v in inp.items() if "@later" not in k}
+    import ast
+    import re
+    m = re.search(r"needs (\[[^\]]*\])", unit_name)
+    need = ast.literal_eval(m.group(1)) if m else []
+    if feat == "ml_class":
+        need = ["ml_score_abc", "ml_score_xyz"]
+    for f in need:
+        state.setdefault(f"has_feat_{f}", True)
     with warnings.catch_warnings():
         warnings.simplefilter("ignore")
         try:
@@ -690,6 +764,11 @@ def replay(unit_name, inp, obligation=""):
         if feat not in ds:
             return {"failed": None, "detail": f"'{feat}' is not available in the replayed state"}
         first = _outcome(ds, feat)
+        if first[0] == "raise" and "outside the hash" in obligation:
+            # the obligation is about edits of the state: show such an edit if there is one
+            msg = _replay_feature_edits(feat, {k: v for k, v in state.items() if not k.startswith("has_feat_fl")}, need)
+            if msg:
+                return {"failed": True, "detail": msg}
         if first[0] == "raise":
             return {"failed": True, "detail": f"'{feat}' in ds is True but reading it raises {first[1]}"}
         if feat == "emodulus":
@@ -735,7 +814,55 @@ def replay(unit_name, inp, obligation=""):
                                       f"{later[0] if later[0] == 'raise' else 'a stale value'} for '{feat}' "
                                       f"({later[1] if later[0] == 'raise' else later[1][:3]}); a fresh dataset gives "
                                       f"{want[1] if want[0] == 'raise' else want[1][:3]}"}
+        # add / replace the features the method may look at as temporary features, compare with a fresh dataset
+        msg = _replay_feature_edits(feat, state, need)
+        if msg:
+            return {"failed": True, "detail": msg}
     return {"failed": False, "detail": "no stale value and no failing read found"}
+
+
+OPTIONAL_FOR = {"bright_bc": ("bg_off",), "bright_perc": ("bg_off",), "fl": ("fl1_max", "fl2_max", "fl3_max"),
+                "emodulus": ("temp",), "ml_class": ("ml_score_abc", "ml_score_xyz")}
+
+
+def _replay_feature_edits(feat, state, need):
+    import numpy as np
+    import dclab
+    from dclab.rtdc_dataset import feat_temp
+    opts = next((v for k, v in OPTIONAL_FOR.items() if feat.startswith(k)), ())
+
+    def cfg_copy(src, dst):
+        for s_ in ("calculation", "imaging", "setup"):
+            for k_ in list(src.config[s_].keys()):
+                dst.config[s_][k_] = src.config[s_][k_]
+    for f in opts:
+        for action in ("add", "replace"):
+            ds = _native_ds(state, need=[x for x in need if x != f], without=[f])
+            n = len(ds)
+            d1, d2 = np.linspace(0.2, 0.7, n), np.linspace(0.9, 0.05, n)
+            if f.startswith("fl") or f == "temp":
+                d1, d2 = d1 * 40 + 5, d2 * 40 + 5
+            if action == "replace":
+                feat_temp.set_temporary_feature(ds, f, d1)
+            if feat not in ds:
+                continue
+            if _outcome(ds, feat)[0] == "raise" and action == "add":
+                pass
+            feat_temp.set_temporary_feature(ds, f, d2)
+            if feat not in ds:
+                continue
+            later = _outcome(ds, feat)
+            fresh = _native_ds(state, need=[x for x in need if x != f], without=[f], extra={f: d2})
+            cfg_copy(ds, fresh)
+            if feat not in fresh:
+                continue
+            want = _outcome(fresh, feat)
+            if not _same(later, want):
+                verb = "was set" if action == "add" else "was replaced"
+                return (f"'{feat}' was read, then the temporary feature '{f}' {verb}: the dataset returns "
+                        f"{later[1] if later[0] == 'raise' else 'the stale value ' + str(later[1][:3])}; a fresh dataset "
+                        f"with the same data gives {want[1] if want[0] == 'raise' else want[1][:3]}")
+    return None
 
 
 def in_carve_out(unit_name, inp):
